@@ -168,7 +168,22 @@ def run(ctx, F):
             okn = False
         ctx.judge(okn, RULE, "the new maximum is current_units + units", expected="required_units", found=show(strip(nm))[:100], where=where(gf, c.line), key=RULE + "|new-max")
     falses = [(b, t, g) for b, t, g in ret_table(gf) if const_arg(t) is False]
-    okf = len(falses) == 1 and any(p.val is True and show(p.tree) == "((arg2 Add arg1.current_units) Gt arg1.max_units)" for p in falses[0][2])
+    def exceeds_max(p):
+        # (units + current_units) > max_units, in any operand order / direction / polarity
+        t = strip(p.tree)
+        if not (t and t[0] == "bin" and t[1] in ("Gt", "Lt", "Ge", "Le")) or not isinstance(p.val, bool):
+            return False
+        try:
+            a, b = lin.poly(F, gf, t[2], atoms=atoms), lin.poly(F, gf, t[3], atoms=atoms)
+        except lin.NonLinear:
+            return False
+        op = t[1]
+        if not p.val:   # negate
+            op = {"Gt": "Le", "Le": "Gt", "Lt": "Ge", "Ge": "Lt"}[op]
+        if op == "Lt":
+            a, b, op = b, a, "Gt"
+        return op == "Gt" and lin.p_add(a, b, -1) == {"units": 1, "current_units": 1, "max_units": -1}
+    okf = len(falses) == 1 and any(exceeds_max(p) for p in falses[0][2])
     ctx.judge(okf, RULE, "growth is refused only beyond the configured maximum", expected="return false iff units + current_units > max_units",
               found=str([[(show(p.tree)[:80], p.val) for p in g] for b, t, g in falses]), where=where(gf), key=RULE + "|refuse")
     # grain of the freed regions
